@@ -544,7 +544,7 @@ def _reproduces(st, driver, work, replay_path, tag, _attempt=0):
         f.write(json.dumps(doc["case"]) + "\n")
     env = st.driver_env
     if env == "RACELOG":
-        env = dict(GORACE="log_path=%s exitcode=0" % (trace + ".race"))
+        env = dict(GORACE="log_path=%s exitcode=0" % (trace + ".race"), VERIF_CONC_REPS="25")
     run_driver(driver, [st.family, "run", "-cases", cases, "-out", trace], env=env)
     viols, n, _ = tlc_trace(st.trace[0], st.trace[1], trace, work)
     if any(tag in tags for t_, _, tags in viols if t_ == doc["case"].get("t", t_)):
